@@ -12,6 +12,7 @@ The bound on the number of callers cannot be dropped: `once_refcount_overflow_be
 import TbbVerif.Proofs.C19.OnceThms
 import TbbVerif.Proofs.C19.EtsThms
 import TbbVerif.Proofs.C19.EtsLoadThm
+import TbbVerif.Proofs.C19.LifeStep
 import TbbVerif.Generated.C19
 
 namespace TbbVerif.C19
@@ -259,6 +260,84 @@ theorem ets_iteration_each_once (hs : List (Nat × Nat)) (hB : ∀ p ∈ hs, p.1
     · intro i h1 h2
       simp at h1
       simp [List.getD_eq_getElem?_getD, h1]
+
+/-! ### enumerable_thread_specific / combinable across the container's lifecycle, for every key kind
+
+`Life` (Model/C19Life.lean) is the operation-level model: `local()` by any thread — through the per-thread cache of the
+native TLS key for `ets_key_per_instance`, through the table for `ets_no_key` / `combinable` —, `clear()`, and
+destruction + re-construction at the same address.  `clear()`, constructor and destructor are the SEQUENCES of primitive
+actions (`destroy_key`, `create_key`, `set_tls(nullptr)`, `super::table_clear()`, `my_locals.clear()`) read from the
+source text of the header on every run (`Generated.C19.life*`). -/
+
+/-- the lifecycle functions as regenerated from enumerable_thread_specific.h / combinable.h -/
+def lifeCfg : Life.Cfg :=
+  Life.Cfg.ofCodes Generated.C19.lifeClearKey Generated.C19.lifeClearNo Generated.C19.lifeCtorKey Generated.C19.lifeCtorNo
+    Generated.C19.lifeDtorKey Generated.C19.lifeDtorNo Generated.C19.lifeTlsLookup
+
+/-- **Generated fact: what `clear()`, the constructor and the destructor do.**  `clear()` of an `ets_key_per_instance`
+container is `my_locals.clear(); destroy_key(); create_key(); super::table_clear()` — it ends with a key that was
+created after the old one was deleted, i.e. one for which EVERY thread's cached pointer is null ("clear invalidates all
+caches"); for `ets_no_key` / `combinable` it is `my_locals.clear(); table_clear()`; the constructor creates the key, the
+destructor clears the table, destroys `my_locals` and deletes the key; the per-instance `table_lookup` consults the TLS
+slot first and fills it after a miss.  Any other sequence (e.g. `set_tls(nullptr)` instead of the key pair, a missing
+`destroy_key()`, a missing `super::table_clear()`) makes this theorem — the hypothesis of the lifecycle theorem — false. -/
+theorem ets_lifecycle_generated : lifeCfg = Life.Cfg.expected := by decide
+
+/-- **One element per thread across the container's lifecycle, for every key kind.**  After ANY sequence of `local()`,
+`clear()` and destroy-and-re-create operations by ANY threads, on a container of either kind, with the lifecycle
+functions as regenerated from the header:
+(1) nothing illegal happened (no use of a deleted key, no double delete);
+(2) every `local()` ever returned an element that was alive, in the container, created by the calling thread in the
+    generation current at the time of the call (`own`, `pgen = cur`), by exactly one initialiser call of that thread in
+    that generation, with a truthful `exists` flag (`exists` ⇔ the thread had already accessed the container since the
+    last clear);
+(3) two `local()` calls of different threads in the same generation never returned the same address;
+(4) `my_locals` (what `size()`, iteration, `combine_each` see) holds exactly one element for every thread that has
+    accessed the container since the last clear and nothing else, and every such thread's calls returned its position;
+(5) the container owns exactly one native TLS key (`ets_key_per_instance`; none is leaked) or none (`ets_no_key`);
+(6) every pointer a thread can still reach through the container's live TLS key designates its own element of the
+    CURRENT generation — no cached pointer survives a `clear()`. -/
+theorem ets_one_element_per_thread_lifecycle (perInst : Bool) (ops : List Life.Op) (s : Life.St)
+    (hs : s = Life.run lifeCfg perInst ops) :
+    s.bad = false ∧
+    (∀ r ∈ s.rets, r.own = true ∧ r.pgen = r.cur ∧ s.inits.count (r.tid, r.cur) = 1 ∧ r.ex = !r.fresh) ∧
+    (∀ r ∈ s.rets, ∀ r' ∈ s.rets, r.cur = r'.cur → r.pos = r'.pos → r.tid = r'.tid) ∧
+    (s.locals.Nodup ∧ (∀ t, t ∈ s.locals ↔ Life.accessed s t = true) ∧
+      ∀ r ∈ s.rets, r.cur = s.gen → s.locals[r.pos]? = some r.tid) ∧
+    ((s.perInst = true → ∃ k, s.key = some k ∧ s.live = [k]) ∧ (s.perInst = false → s.key = none ∧ s.live = [])) ∧
+    (∀ t k g p, s.tls t k = some (g, p) → s.key = some k → g = s.gen ∧ s.locals[p]? = some t) := by
+  subst hs
+  rw [ets_lifecycle_generated]
+  have h := Life.inv_run perInst ops
+  refine ⟨h.nbad, fun r hr => ?_, h.share, ⟨h.nodup, fun t => ?_, fun r hr => (h.rets r hr).2.2.2.2.2⟩,
+    ⟨fun hp => ?_, h.keyN⟩, fun t k g p hq hk => (h.tls t k g p hq).2 hk⟩
+  · obtain ⟨_, b, c, d, e, _⟩ := h.rets r hr
+    exact ⟨c, b, e, d⟩
+  · rw [Life.accessed_iff]; exact h.acc t
+  · obtain ⟨k, a, b, _⟩ := h.keyK hp
+    exact ⟨k, a, b⟩
+
+/-- non-vacuity: an `ets_key_per_instance` container; thread 0 accesses twice, thread 1 clears, thread 0 (which outlived
+the clear) and a new thread 2 access, the container is re-created, thread 0 accesses again: every call returns the
+caller's own element of the current generation, `exists` is true exactly for the repeated access, positions are
+re-used across generations (same addresses), the key is replaced by a fresh one each time. -/
+example :
+    let s := Life.run lifeCfg true [.loc 0, .loc 0, .clear 1, .loc 0, .loc 2, .recreate 2, .loc 0]
+    s.rets.reverse.map (fun r => (r.tid, r.cur, r.pgen, r.pos, r.ex, r.own)) =
+      [(0, 0, 0, 0, false, true), (0, 0, 0, 0, true, true), (0, 1, 1, 0, false, true), (2, 1, 1, 1, false, true), (0, 2, 2, 0, false, true)] ∧
+    s.locals = [0] ∧ s.gen = 2 ∧ s.key = some 3 ∧ s.live = [3] ∧ s.bad = false := by decide
+
+/-- the hypothesis `ets_lifecycle_generated` cannot be dropped: with `set_tls(nullptr)` in place of
+`destroy_key(); create_key()` in `clear()` (only the CALLING thread's cache is reset) thread 0's next `local()` returns,
+with `exists = true` and without an initialiser call, the address of its destroyed element of the previous generation
+(`own = false`), and the new thread 2 then gets the same address: two threads share one element while `my_locals` holds
+a single element. -/
+example :
+    let bad : Life.Cfg := { Life.Cfg.expected with clearKey := [.localsClear, .setTlsNull, .superClear] }
+    let s := Life.run bad true [.loc 0, .clear 1, .loc 0, .loc 2]
+    s.rets.reverse.map (fun r => (r.tid, r.cur, r.pgen, r.pos, r.ex, r.own)) =
+      [(0, 0, 0, 0, false, true), (0, 1, 0, 0, true, false), (2, 1, 1, 0, false, true)] ∧
+    s.locals = [2] ∧ s.inits.count (0, 1) = 0 := by decide
 
 set_option maxRecDepth 4096 in
 /-- non-vacuity: three threads with colliding hashes (all start at slot 0), thread 0 looks up twice; the table grows
